@@ -142,11 +142,18 @@ func getDurationDirective(d map[string]string, token string) (dur time.Duration,
 type CCRequestDirectives map[string]string
 
 func ParseCCRequestDirectives(header http.Header) CCRequestDirectives {
-	value := header.Get("Cache-Control")
+	value := cacheControlValue(header)
 	if value == "" {
 		return nil
 	}
 	return parseDirectives(value)
+}
+
+// cacheControlValue returns the combined value of all Cache-Control field
+// lines: a list-based field may be split across several lines, which is
+// equivalent to one line joined by commas (RFC 9110 §5.3).
+func cacheControlValue(header http.Header) string {
+	return strings.Join(header.Values("Cache-Control"), ",")
 }
 
 // MaxAge parses the "max-age" request directive as defined in RFC 9111, §5.2.1.1.
@@ -201,7 +208,7 @@ func (d CCRequestDirectives) StaleIfError() (dur time.Duration, valid bool) {
 type CCResponseDirectives map[string]string
 
 func ParseCCResponseDirectives(header http.Header) CCResponseDirectives {
-	value := header.Get("Cache-Control")
+	value := cacheControlValue(header)
 	if value == "" {
 		return nil
 	}
